@@ -57,8 +57,8 @@ CLAIMS['C01'] = {
   'note': "Component gradients (calc_gradients of ~40 cvc classes), fit gradients, metadynamics/ABMD kernels and atom_group::apply_colvar_force are n/d: calculus over sqrt/acos/eigen-decompositions is outside any contract language available here.",
   'design_ref': '§4 C01'}
 CLAIMS['C20'] = {
-  'text': "Contract on the verbatim body of colvar::collect_cvc_gradients: the gradients a script query returns are collected from exactly the enabled components, once each; a component switched off at run time contributes nothing.",
-  'note': "The scripting dispatch (colvarscript::run, argument helpers, config queue) is n/d.",
+  'text': "Contracts on the verbatim bodies of the scripting interface's argument helpers (cmd_arg_shift, get_cmd_arg, check_cmd_nargs for module-, colvar- and bias-level commands, any argument count): an argument is objv[shift+i] exactly when that many words were passed, NULL otherwise, objv is never indexed outside [0, objc); an accepted argument count implies every mandatory argument is present (lemma). Plus colvar::collect_cvc_gradients: the gradients a script query returns come from exactly the enabled components, once each.",
+  'note': "colvarscript::run dispatch, the per-command bodies, the proxy's config queue and 'script numbers equal engine numbers' are n/d.",
   'design_ref': '§4 C20'}
 CLAIMS['C10'] = {
   'text': "Contracts on the statements that consume frequency/stride parameters (colvar::parse_analysis runAve and corrFunc blocks, colvarbias_meta::init newHillFrequency, head of colvarbias_meta::update_bias), with get_keyval delivering ANY value: no integer division by zero, a zero stride is an error, a metadynamics bias is history dependent only with a positive hill frequency and never evaluates the schedule otherwise.",
@@ -67,7 +67,7 @@ CLAIMS['C10'] = {
 CLAIMS['C04'] = {
   'text': "Contracts on the verbatim bodies of colvarbias_abf::update (up to 'End of ABF proper') and calc_biasing_force, symbolic reals: each force sample is attributed to the bin the variable occupied when the force acted (previous call's bin unless the variable's total force is of the current step), accumulated at most once and only on eligible steps inside the grid; the applied force is zero outside the grid or with applyBias off, otherwise the smoothed mean force, made zero-mean for one periodic variable BEFORE the maxForce cap.",
   'note': "Bounded (1-2 variables); grids, update_system_force, smoothing ramp and replica sharing are stubs; the tail of update() (output prefix, UI estimator, calc_energy), projected ABF, CZAR and the arithmetic of the running mean are n/d.",
-  'design_ref': '§4 C04', 'category': 'other'}
+  'design_ref': '§4 C04'}
 CLAIMS['C05'] = {
   'text': "Deposition schedule of metadynamics as contracts on the head of colvarbias_meta::update_bias and on colvarbias::can_accumulate_data: in one call at most one hill is created, and exactly when the bias is history dependent, the step is not the repeated first step of a segment, and the absolute step is a multiple of newHillFrequency.",
   'note': "Hill frequency fixed to 10 in the schedule task (constant divisor); hill values, weights, well-tempered scaling, grids, rebinning and keepHills are n/d (Gaussian sums over exp are outside reach).",
